@@ -132,6 +132,13 @@ Section ItemsProofs.
                     | (c1, ETypeError) => (c1, ETypeError)
                     | (c1, EFuel) => (c1, EFuel)
                     end
+                | IncludeOpt n =>
+                    match get_template cfg fs c (join_path cfg n parent) with
+                    | (c1, Ok ct) => rec (join_path cfg n parent) ct c1
+                    | (c1, ENotFound) => (c1, Ok [])
+                    | (c1, ETypeError) => (c1, ETypeError)
+                    | (c1, EFuel) => (c1, EFuel)
+                    end
                 end = (c1, r1) ->
                 r1 = match it with
                      | Text s => Ok s
@@ -141,8 +148,12 @@ Section ItemsProofs.
                                     | ENotFound => ENotFound | ETypeError => ETypeError | EFuel => EFuel
                                     end
                      | Import n => map_ok export (spec_get cfg fs (join_path cfg n parent))
+                     | IncludeOpt n => match spec_get cfg fs (join_path cfg n parent) with
+                                       | Ok ct => rec_spec (join_path cfg n parent) ct
+                                       | ENotFound => Ok [] | ETypeError => ETypeError | EFuel => EFuel
+                                       end
                      end /\ I c1).
-      { intros c1 r1. destruct it as [s|k|n|n].
+      { intros c1 r1. destruct it as [s|k|n|n|n].
         - intros [= <- <-]. auto.
         - intros [= <- <-]. auto.
         - destruct (get_template cfg fs c (join_path cfg n parent)) as [c0 r0] eqn:Eg.
@@ -154,7 +165,14 @@ Section ItemsProofs.
           + intros [= <- <-]. auto.
         - destruct (get_template cfg fs c (join_path cfg n parent)) as [c0 r0] eqn:Eg.
           destruct (Hget _ _ _ _ G Eg) as [-> G0].
-          destruct (spec_get cfg fs (join_path cfg n parent)) as [ct| | |]; intros [= <- <-]; auto. }
+          destruct (spec_get cfg fs (join_path cfg n parent)) as [ct| | |]; intros [= <- <-]; auto.
+        - destruct (get_template cfg fs c (join_path cfg n parent)) as [c0 r0] eqn:Eg.
+          destruct (Hget _ _ _ _ G Eg) as [-> G0].
+          destruct (spec_get cfg fs (join_path cfg n parent)) as [ct| | |].
+          + intros Hr. exact (Hrec _ _ _ _ _ G0 Hr).
+          + intros [= <- <-]. auto.
+          + intros [= <- <-]. auto.
+          + intros [= <- <-]. auto. }
       match goal with |- (let '(c1, r1) := ?X in _) = _ -> _ => destruct X as [c1 r1] eqn:Ei end.
       destruct (Hitem c1 r1 eq_refl) as [Hr1 G1]. rewrite <- Hr1.
       destruct r1 as [s1| | |].
@@ -322,7 +340,7 @@ Lemma spec_items_no_te cfg fs x rec : (forall n ct, rec n ct <> ETypeError) ->
   forall parent its, spec_items cfg fs x rec parent its <> ETypeError.
 Proof.
   intros Hrec parent. induction its as [|it r IH]; cbn [spec_items]; [discriminate|].
-  destruct it as [s|k|n|n].
+  destruct it as [s|k|n|n|n].
   - destruct (spec_items cfg fs x rec parent r); cbn; try discriminate. congruence.
   - destruct (spec_items cfg fs x rec parent r); cbn; try discriminate. congruence.
   - pose proof (spec_get_no_te cfg fs (join_path cfg n parent)) as Hg.
@@ -333,6 +351,12 @@ Proof.
   - pose proof (spec_get_no_te cfg fs (join_path cfg n parent)) as Hg.
     destruct (spec_get cfg fs (join_path cfg n parent)) as [ct| | |]; cbn; try discriminate; [|congruence].
     destruct (spec_items cfg fs x rec parent r); cbn; try discriminate. congruence.
+  - pose proof (spec_get_no_te cfg fs (join_path cfg n parent)) as Hg.
+    destruct (spec_get cfg fs (join_path cfg n parent)) as [ct| | |]; try discriminate; [| |congruence].
+    + pose proof (Hrec (join_path cfg n parent) ct) as Hr.
+      destruct (rec (join_path cfg n parent) ct); try discriminate; [|congruence].
+      destruct (spec_items cfg fs x rec parent r); cbn; try discriminate. congruence.
+    + destruct (spec_items cfg fs x rec parent r); cbn; try discriminate. congruence.
 Qed.
 
 Lemma spec_tpl_no_te fuel cfg fs x : forall n ct, spec_tpl fuel cfg fs x n ct <> ETypeError.
